@@ -7,6 +7,7 @@ variants of one expression must agree with each other)."""
 import itertools
 import json
 import os
+import re
 
 from pv.core import env
 from pv.gen import expr, files
@@ -20,7 +21,7 @@ RULE = ('strata: A = every grammatical token sequence over {(,),and,or,not,check
         'leaves numbered left to right, and again with only one or two distinct leaves repeated; three leaf families (role checks, attribute checks, attribute names that begin with the letters of a keyword); AK = every sentence up to 7 (thorough 9) tokens with every leaf position taken by a leaf, `@` or `!` (at least one constant); B = random ASTs (<= ~60 tokens, leaf reuse, constants) each in '
         'several lexical variants (keyword case, ASCII whitespace, glued parentheses, redundant groups); '
         'D = deeply nested legal expressions (1-40 chained not, alternating and/or/not towers of depth 2-25, within ~60 tokens); C = every list-of-lists shape (outer<=3, inner<=3) over {leaf, other leaf, @, !, bare string, '
-        'empty entry}; K = constant rules; every seventh sentence of A is parsed immediately after a malformed rule (lone operator, unbalanced parenthesis, dangling operator ...) in the same thread; F = slice of A/B carried through real JSON and YAML policy files; every eleventh sentence of A is, after being decided, registered as the default of a policy with a deprecated predecessor in another enforcer (merged when enforce_new_defaults is off) and then parsed and decided again: the text must mean the same; stratum first-use: in a fresh interpreter per schedule two threads load and decide one rule each as the very first use of the library (first one pre-empted at the line boundaries that exist on first use only, and at sampled others); O = two threads each load and decide a rule - or both evaluate ONE parsed rule with wide and/or nodes - at the same time (second one runs at sampled line boundaries of the first, deterministic scheduler): results must be those of running them one after the other. '
+        'empty entry}; K = constant rules; G = every sentence up to 9 (thorough 11) tokens in which `(` is directly followed by `not`, spelled with the parentheses glued to their neighbours INCLUDING the keyword (`(not`, `((NOT`, `(Not (`; the documented tokenizer peels leading parentheses before it looks for keywords, so this is a whitespace variant) in several glue patterns, keyword cases and separators, and one such fully glued spelling (every group parenthesised) of each random AST of B; every seventh sentence of A is parsed immediately after a malformed rule (lone operator, unbalanced parenthesis, dangling operator ...) in the same thread; F = slice of A/B carried through real JSON and YAML policy files; every eleventh sentence of A is, after being decided, registered as the default of a policy with a deprecated predecessor in another enforcer (merged when enforce_new_defaults is off) and then parsed and decided again: the text must mean the same; stratum first-use: in a fresh interpreter per schedule two threads load and decide one rule each as the very first use of the library (first one pre-empted at the line boundaries that exist on first use only, and at sampled others); O = two threads each load and decide a rule - or both evaluate ONE parsed rule with wide and/or nodes - at the same time (second one runs at sampled line boundaries of the first, deterministic scheduler): results must be those of running them one after the other. '
         'Each case is decided under all 2^k role (or attribute) assignments. A case is non-trivial when its '
         'reference truth table is not constant; distinct = distinct rule value.')
 ASSUMPTIONS = [
@@ -35,7 +36,7 @@ LEVEL_TEXT = ('Every grammatical sentence up to 11 (thorough: 15) tokens and eve
 LEVEL_NOTE = ('trusted: the reference evaluator/recogniser in pv/gen/expr.py; leaf checks (role:, attribute) behave as '
               'C04/C05 state; only ASCII whitespace is generated')
 PLAN = {'quick': dict(shards=4, wall=120), 'thorough': dict(shards=16, wall=420)}
-MIN = {'sentences_with_constants': 2000, 'first_use_schedules': 12, 'overlapping_evaluations': 200, 'shared_tree_overlaps': 4, 'reparsed_after_use_as_deprecated_default': 100, 'deep_cases': 20, 'parsed_after_malformed_rule': 100, 'sentences_with_repeated_leaves': 500, 'evaluations': 200, 'decisions': 2000, 'allow_decisions': 100, 'deny_decisions': 100}
+MIN = {'parenthesis_glued_to_not': 150, 'variants_with_parenthesis_glued_to_not': 30, 'sentences_with_constants': 2000, 'first_use_schedules': 12, 'overlapping_evaluations': 200, 'shared_tree_overlaps': 4, 'reparsed_after_use_as_deprecated_default': 100, 'deep_cases': 20, 'parsed_after_malformed_rule': 100, 'sentences_with_repeated_leaves': 500, 'evaluations': 200, 'decisions': 2000, 'allow_decisions': 100, 'deny_decisions': 100}
 ANCHORS = ['oslo_policy.policy:Enforcer.enforce', 'oslo_policy._parser:parse_rule',
            'oslo_policy._parser:_parse_tokenize', 'oslo_policy._parser:_parse_list_rule',
            'oslo_policy._parser:ParseState._wrap_check', 'oslo_policy._parser:ParseState._make_and_expr',
@@ -46,8 +47,8 @@ ANCHORS = ['oslo_policy.policy:Enforcer.enforce', 'oslo_policy._parser:parse_rul
            'oslo_policy._checks:NotCheck.__call__']
 REQUIRED_ANCHORS = ['oslo_policy.policy:Enforcer.enforce']
 
-BOUNDS = {'quick': dict(L=11, LK=7, nB=400, nvar=8, file_every=20),
-          'thorough': dict(L=15, LK=9, nB=40000, nvar=10, file_every=20)}
+BOUNDS = {'quick': dict(L=11, LK=7, LG=9, nB=400, nvar=8, file_every=20),
+          'thorough': dict(L=15, LK=9, LG=11, nB=40000, nvar=10, file_every=20)}
 
 OVERLAPS = {'quick': 8, 'thorough': 150}        # pairs per shard
 
@@ -147,6 +148,19 @@ def check_case(ctx, real, case):
                               {'rule': text, 'expected': want, 'observed_when_parsed_again': again,
                                'in_between': 'registered as the default of a policy with a deprecated predecessor, loaded with '
                                              'enforce_new_defaults=%s, enforced once' % (not case['reuse_as_default'])})
+    elif s == 'G':
+        toks, k = expr.number_leaves(case['toks'])
+        ast = expr.parse_tokens(toks)
+        words = [leaf_text(t[1]) if isinstance(t, tuple) else t for t in toks]
+        text = spell_glued(words, case['mode'], case['c'])
+        want = ref_table(ast, k)
+        got = real.table(text, k, fam)
+        if has_glued_not(text):
+            ctx.count('parenthesis_glued_to_not')
+        record(ctx, case, text, got, want, 'G', key='parenthesis-glued-to-keyword-mismatch')
+        spaced = ' '.join(words)
+        if got != want and real.table(spaced, k, fam) == want:
+            ctx.violation('variant-disagreement', case, {'variant_a': spaced, 'decisions_a': want, 'variant_b': text, 'decisions_b': got})
     elif s == 'AK':
         toks, j, k = [], 0, 0
         for t in case['toks']:
@@ -183,6 +197,17 @@ def check_case(ctx, real, case):
                 ctx.violation('variant-disagreement', dict(case, text=text),
                               {'variant_a': first[0], 'decisions_a': first[1],
                                'variant_b': text, 'decisions_b': got})
+        if case.get('glued') is not None:
+            # one more spelling: every group parenthesised, every parenthesis glued - also to `not`
+            text = spell_glued(expr.to_tokens(ast, leaf_text, full=True), case['glued'] % GLUE_MODES, case['glued'])
+            got = real.table(text, k, fam, case.get('via', 'dict'), case.get('fmt', 'json'))
+            ctx.count('variants')
+            if has_glued_not(text):
+                ctx.count('variants_with_parenthesis_glued_to_not')
+            record(ctx, dict(case, text=text), text, got, want, 'B', key='parenthesis-glued-to-keyword-mismatch')
+            if first is not None and got != first[1]:
+                ctx.violation('variant-disagreement', dict(case, text=text),
+                              {'variant_a': first[0], 'decisions_a': first[1], 'variant_b': text, 'decisions_b': got})
     elif s == 'D':
         ast = totuple(case['ast'])
         k = case['k']
@@ -205,6 +230,46 @@ def check_case(ctx, real, case):
         record(ctx, case, value, got, want, 'K', key='constant-rule-mismatch')
     for name, info in contracts.drain():
         ctx.violation('contract-' + name, case, {'contract': name, 'observed': info})
+
+
+# -- parentheses glued to the keyword `not` ------------------------------------
+KW_CASES = {'not': ['not', 'NOT', 'Not', 'nOt', 'noT', 'NoT'], 'and': ['and', 'AND', 'And', 'aNd'], 'or': ['or', 'OR', 'Or', 'oR']}
+GLUE_MODES = 4
+GLUE_SEPS = [' ', '\t', '\n', '  ', ' \t ', '\r\n', '\x0b', '\x0c']
+
+
+def spell_glued(words, mode, c):
+    """Spelling of a grammatical token list in which opening parentheses are glued to what follows them - another `(`, a
+    check, or the keyword `not` - and closing ones to what precedes them (never a keyword in a sentence).  The documented
+    tokenizer splits at whitespace, peels leading `(` and trailing `)` off each piece and only then looks for keywords, so
+    `(not`, `((NOT` are `(`, [`(`,] `not`; gluing the other way round (`not(`) would be a different sentence and is not made.
+    mode 0: every such place glued; 1: only `(`+`not`; 2: all opening sides, closing ones spaced; 3: as 0 with odd separators.
+    c: which letter case the keywords take (cycled along the text)."""
+    out, prev, n = [], None, 0
+    for t in words:
+        w = t
+        if t in KW_CASES:
+            alts = KW_CASES[t]
+            w = alts[(c + n) % len(alts)]
+            n += 1
+        if prev is not None:
+            opening = prev == '('
+            closing = t == ')' and prev != '('
+            if mode == 1:
+                g = opening and t == 'not'
+            elif mode == 2:
+                g = opening
+            else:
+                g = opening or closing
+            if not g:
+                out.append(GLUE_SEPS[(c + len(out)) % len(GLUE_SEPS)] if mode == 3 else ' ')
+        out.append(w)
+        prev = t
+    return ''.join(out)
+
+
+def has_glued_not(text):
+    return re.search(r'\((?i:not)\s', text) is not None
 
 
 def use_as_default(real, text, flag_off):
@@ -467,6 +532,18 @@ def cases(ctx):
             if ctx.mine(idx):
                 yield dict(s='K', value=value, allow=allow, via=via, fmt=fmt)
             idx += 1
+    # G: sentences with `( not`, parentheses glued (also to the keyword); early, it is small
+    ctx.stratum('G', exhaustive=False)
+    gidx = 0
+    for n in range(1, b['LG'] + 1):
+        for seq in expr.sentences(n):
+            if not any(seq[i] == '(' and seq[i + 1] == 'not' for i in range(len(seq) - 1)):
+                continue
+            for mode in (0, 1 + gidx % (GLUE_MODES - 1)):
+                if ctx.mine(gidx + mode):
+                    yield dict(s='G', toks=list(seq), mode=mode, c=gidx // 2, fam=('role', 'attr', 'kw')[(gidx + mode) % 3])
+            gidx += 1
+    ctx.stratum('G', exhaustive=True)
     # A: exhaustive sentences
     total = 0
     for n in range(1, b['L'] + 1):
@@ -523,7 +600,7 @@ def cases(ctx):
         while expr.size(ast) > limit:
             ast = expr.random_ast(rnd, rnd.randint(1, 4), k)
         case = dict(s='B', ast=ast, k=k, vseed='%d.%d' % (ctx.shard, i), nvar=b['nvar'],
-                    fam='role' if rnd.random() < 0.7 else 'attr')
+                    fam='role' if rnd.random() < 0.7 else 'attr', glued=i)
         if i % b['file_every'] == 0:
             case.update(via='file', fmt='json')     # whitespace variants travel safely in JSON
         yield case
